@@ -153,6 +153,10 @@ type c10run struct {
 // earlier incarnation (a start state, not a fault of this history); it must have no influence.
 var c10stale bool
 
+// c10blocked: a directory sits where the temporary compaction file would be created, so every
+// compaction fails for the whole history (another start state); nothing recorded may be lost.
+var c10blocked bool
+
 const c10staleContent = "alive: stale-node 10.9.9.9:7946\nalive: n1 10.8.8.8:1\nclock: 99\nevent-clock: 99\nquery-clock: 99\n"
 
 func c10exec(ops []c10op, thr int, rejoin bool) *c10run {
@@ -162,6 +166,9 @@ func c10exec(ops []c10op, thr int, rejoin bool) *c10run {
 		img = map[string]string{c10path + ".compact": c10staleContent}
 	}
 	fs := vos.NewFS(img)
+	if c10blocked {
+		fs.Blocked = map[string]bool{c10path + ".compact": true}
+	}
 	vos.Install(fs)
 	defer vos.Install(nil)
 	x := vsched.Run(vsched.RunOpts{MaxSteps: 400000}, func() {
@@ -446,7 +453,7 @@ func init() {
 		Level: "model_checking",
 		Rule: "cases: every history of 1..N operations, one event at a time, on the real Snapshotter, always ending with shutdown+reopen, compared at every reopen with the reference model and run once per compaction threshold {1, 64, 128Ki} (differential). Alphabet instances: name pairs (a, 'a b'), ('b ', x:y), ('alive: z', leave), ('', 'not-alive: q'), each with short names and with names stretched to >100 bytes (so that compaction also happens while members are alive). " +
 			"Letters (13): join n1@IPv4, join n1 at a new address, join n2@IPv6, one join event carrying both members, leave n1, failed n2, update n1, reap n2, user event LTime 2, query LTime 2, clock witness 5, +600 ms (clock ticker + flush interval), shutdown+reopen; N=4 quick / 5 thorough. The pair (a,'a b') uses 10 of these letters with N=5 quick / 6 thorough. 'clocks' instance (13 letters): join/leave of one member, user events LTime 1,2,10,2^63, queries 1,2,2^63, witnesses 2 and 2^63, +600 ms, shutdown+reopen; N=4/5. thorough adds four instances whose names contain a newline (N=4). " +
-			"A case is one history (all three thresholds, and the smallest threshold once more with a temporary compaction file left behind by an earlier incarnation in the directory); it is non-trivial if the expected restored state at some restart is not the empty state; histories outside the premises (see assumptions) are not counted. Outcomes = (number of alive members, which clocks are non-zero, compaction count bucket per threshold).",
+			"A case is one history (all three thresholds, the smallest threshold once more with a temporary compaction file left behind by an earlier incarnation in the directory, and once more with a directory sitting at the temporary file's path so that every compaction fails); it is non-trivial if the expected restored state at some restart is not the empty state; histories outside the premises (see assumptions) are not counted. Outcomes = (number of alive members, which clocks are non-zero, compaction count bucket per threshold).",
 		Assumptions: []string{
 			"'the snapshot keeps up': one event is handed to the snapshotter, then the system runs to quiescence before the next one",
 			"the Lamport clock given to the snapshotter is >= 1 (serf.Create increments it before anything can reach the snapshotter)",
@@ -578,10 +585,11 @@ func c10one(ctx *vc.Ctx, scn *vc.Scenario, h []c10op) (string, bool) {
 	var first *c10run
 	bad := false
 	// the three thresholds, then the smallest one again with a left-over temporary compaction file
-	for ti, thr := range append(append([]int{}, c10thresholds...), c10thresholds[0]) {
+	for ti, thr := range append(append([]int{}, c10thresholds...), c10thresholds[0], c10thresholds[0]) {
 		c10stale = ti == len(c10thresholds)
+		c10blocked = ti == len(c10thresholds)+1
 		r := c10exec(hist, thr, false)
-		c10stale = false
+		c10stale, c10blocked = false, false
 		if r.Err != "" {
 			ctx.Violation(scn.Name, cls("snapshotter-failed"), fmt.Sprintf("history %v, minCompactSize=%d: %s", hist, thr, r.Err), rp)
 			bad = true
